@@ -14,7 +14,11 @@ CONSTANTS Ent,        \* entity slots, filled in the order of Ord
           KeySp,      \* spellings of the 'targetname' key
           Prefixes,   \* make_unique(prefix) arguments
           IterOps,    \* mutation paths exercised in the middle of an iteration
-          CopyMaps    \* maps an entity can be copied into
+          CopyMaps,   \* maps an entity can be copied into
+          PClass,     \* classnames / targetnames given to passive (never mutated) entities
+          PNames,
+          SpawnIn,    \* classnames tried on the worldspawn
+          SpawnQuiet  \* TRUE: the worldspawn is only touched while no passive entity exists
 
 Maps == {"m1", "m2"}
 SpawnId == [m1 |-> "w1", m2 |-> "w2"]
@@ -45,27 +49,34 @@ NameKeys == {<<"", "">>} \cup (NameIn \X KeySp)        \* no targetname key, or 
 Loose(m) == {x \in Live : E(x).home = m /\ ~E(x).inmap}
 
 (* ---- the mutation paths, as sets of enabled action records ----------------- *)
+PNameKeys == {<<n, IF n = "" THEN "" ELSE "targetname">> : n \in PNames}
 NewActs == {[op |-> "new", x |-> x, m |-> "m1", c |-> c, n |-> nk[1], k |-> nk[2]] :
-                x \in NextFree, c \in ClassIn \cup {""}, nk \in NameKeys}
+                x \in NextFree \cap Active, c \in ClassIn \cup {""}, nk \in NameKeys}
+           \cup {[op |-> "new", x |-> x, m |-> "m1", c |-> c, n |-> nk[1], k |-> nk[2]] :
+                x \in NextFree \ Active, c \in PClass, nk \in PNameKeys}
 CreateActs == {[op |-> "create_ent", x |-> x, m |-> "m1", c |-> c, n |-> nk[1], k |-> nk[2]] :
-                x \in NextFree, c \in ClassIn, nk \in NameKeys}
+                x \in NextFree \cap Active, c \in ClassIn, nk \in NameKeys}
+              \cup {[op |-> "create_ent", x |-> x, m |-> "m1", c |-> c, n |-> nk[1], k |-> nk[2]] :
+                x \in NextFree \ Active, c \in PClass, nk \in PNameKeys}
 AddEntActs == {[op |-> "add_ent", x |-> x] : x \in {y \in Live : ~E(y).inmap}}
 AddEntsActs == {[op |-> "add_ents", xs |-> xs] :
                 xs \in UNION {{<<>>} \cup {<<x>> : x \in Loose(m)}
                               \cup {xy \in Loose(m) \X Loose(m) : xy[1] # xy[2]} : m \in Maps}}
 RemoveEntActs == {[op |-> "remove_ent", x |-> x] : x \in Mut}
 EntRemoveActs == {[op |-> "ent_remove", x |-> x] : x \in Mut}
+Quiet == \A x \in Ent \ Active : st.ent[x].home = ""
+SpawnMut == IF SpawnQuiet /\ ~Quiet THEN {} ELSE {"w1"}
 SetClassActs == {[op |-> "set_class", x |-> x, v |-> v] : x \in Mut, v \in ClassIn}
-                \cup {[op |-> "set_class", x |-> "w1", v |-> v] : v \in ClassIn \cup {"WorldSpawn"}}
+                \cup {[op |-> "set_class", x |-> x, v |-> v] : x \in SpawnMut, v \in SpawnIn}
 SetNameActs == {[op |-> "set_name", x |-> x, v |-> v, k |-> k] : x \in Mut, v \in NameIn, k \in KeySp}
 UpdateActs == {[op |-> "update", x |-> x, v |-> v, n |-> n, k |-> "targetname"] :
                 x \in Mut, v \in ClassIn \cap {"C", "d"}, n \in NameIn \cap {"", "A"}}
 DelNameActs == {[op |-> "del_name", x |-> x, k |-> k] : x \in Mut, k \in KeySp}
-DelClassActs == {[op |-> "del_class", x |-> x] : x \in Mut \cup {"w1"}}
+DelClassActs == {[op |-> "del_class", x |-> x] : x \in Mut \cup SpawnMut}
 PopNameActs == {[op |-> "pop_name", x |-> x] : x \in Mut}
-PopClassActs == {[op |-> "pop_class", x |-> x] : x \in Mut \cup {"w1"}}
-ClearActs == {[op |-> "clear", x |-> x, c |-> ""] : x \in Mut \cup {"w1"}}
-CopyActs == {[op |-> "copy", x |-> x, p |-> p, m |-> m] : x \in Live \cup {"w1"}, p \in NextFree, m \in CopyMaps}
+PopClassActs == {[op |-> "pop_class", x |-> x] : x \in Mut \cup SpawnMut}
+ClearActs == {[op |-> "clear", x |-> x, c |-> ""] : x \in Mut \cup SpawnMut}
+CopyActs == {[op |-> "copy", x |-> x, p |-> p, m |-> m] : x \in Live \cup SpawnMut, p \in NextFree, m \in CopyMaps}
 MakeUniqueActs == {a \in {[op |-> "make_unique", x |-> x, prefix |-> p] : x \in Mut, p \in Prefixes} :
                       Apply(MCF, st, a).s.ent[a.x].name \in NameU}
 
@@ -93,6 +104,10 @@ MakeUnique == \E a \in MakeUniqueActs : Do(a)
 \* judged on the implementation's record (VmfIndexTrace).
 IterDo(a) == \E kd \in {"class", "target"} :
                \E key \in DOMAIN (IF kd = "class" THEN st.bc["m1"] ELSE st.bt["m1"]) :
+                 /\ LET post == Apply(MCF, st, a).s
+                        pre  == IF kd = "class" THEN st.bc["m1"][key] ELSE st.bt["m1"][key]
+                        aft  == Lookup(IF kd = "class" THEN post.bc["m1"] ELSE post.bt["m1"], key)
+                    IN  a.x \in Ent /\ a.x \in pre \cup aft   \* the set iterated is one the mutation touches
                  /\ st' = Apply(MCF, st, a).s
                  /\ act' = [op |-> "iter", kind |-> kd, m |-> "m1", key |-> key, mut |-> a]
 IterMutate ==
@@ -140,6 +155,17 @@ Isolated == [][\A m \in Maps :
                     => (st'.bc[m] = st.bc[m] /\ st'.bt[m] = st.bt[m])]_vars
 SpawnFixed == [][\A w \in Spawns : Fd(MCF.fold, st'.ent[w].cls) = Fd(MCF.fold, st.ent[w].cls)]_vars
 
+\* bound for the edge configurations: a passive entity either has one of the passive key sets
+\* or is (still) an exact copy of the entity before it
+Keys(e) == <<e.cls, e.name, e.tk>>
+PassiveBound == \A x \in Ent \ Active :
+    \/ st.ent[x].home = ""
+    \/ (st.ent[x].home = "m1" /\ st.ent[x].cls \in PClass /\ <<st.ent[x].name, st.ent[x].tk>> \in PNameKeys)
+    \/ \E y \in Ent : Ord[y] < Ord[x] /\ Keys(st.ent[y]) = Keys(st.ent[x])
+SpawnBound == SpawnQuiet => (Quiet \/ st.ent["w1"].cls = "worldspawn")
+
 View == vars
-Emit == PrintT(ToJson([tag |-> "EDGE", s |-> st.ent, a |-> act']))
+Pack(e) == <<e.home, e.inmap, e.spawn, e.cls, e.name, e.tk>>
+Emit == PrintT(ToJson([tag |-> "EDGE", s |-> [x \in DOMAIN st.ent |-> Pack(st.ent[x])], a |-> act',
+                       t |-> [x \in DOMAIN st.ent |-> Pack(st'.ent[x])]]))
 =============================================================================
